@@ -494,11 +494,11 @@ def litlist(repo, res, ty, rule="LITLIST"):
 def run(repo, res, tier):
     ty = typer(repo)
     litlist(repo, res, ty)
-    from vlib import rules_skips as SK, tables
-    # a printer that skips a row, a level or a declaration leaves the script's reader looking at a table that is not there (bash: at the
-    # caller's table of the same name): every skip / guard in the four emitters is one of the rows confirmed by reading
-    n_sk = SK.skips_rule(repo, res, tables.load("skips")["row"], only=SK.printers(repo))
-    res.floor("SKIPS", n_sk, 83)
+    from vlib import rules_declguard as DG
+    # a wrapper that declares a table only when it has entries leaves the script's reader looking at a table that is not there (bash,
+    # zsh: at the caller's table of the same name)
+    n_sk = DG.declguard_rule(repo, res, modules=("bash", "zsh"), advisory_modules=("fish", "pwsh"))
+    res.floor("DECLGUARD", n_sk, 12)
     from vlib import rules_fieldcover as FC
     # the one command-id set holds the command of EVERY symbol that has one, top-level and within-word (ids are looked up in it later)
     FC.fieldcover(repo, res, "dfa::DFA::get_commands", "Inp", "cmd", "call:insert", min_matches=2)
